@@ -40,7 +40,9 @@ def specs():
     s0 = ArchSpec(layout=Layout({"A": A, "L": L_, "B": B, "M": M}, {"A"}, {"A"}, {"A"}, special_grid={"S": S}))
     C = Grid.from_positions([0.0, 1.0, 2.0], [0.0, 1.0, 2.0])
     s1 = ArchSpec(layout=Layout({"A": C, "B": B}, {"A"}, {"A"}, {"A"}))
-    return [s0, s1]
+    # the grids of s0 under other names (and one of them no zone at all): an attribution remembered across specs is wrong here
+    s2 = ArchSpec(layout=Layout({"A": B, "B": A, "L": M}, {"A"}, {"A"}, {"A"}, special_grid={"S": L_}))
+    return [s0, s1, s2]
 
 
 # ---------------------------------------------------------------------------- programs
@@ -112,7 +114,8 @@ def gen_program(rng, spec):
             prog.append(("alias", gi))
             grids[len(prog) - 1] = grids[gi]
     if rng.random() < 0.25:
-        prog.append(("trap", "zz"))        # an invalid name: nothing after it is computed
+        # an invalid static-trap name (unknown, or the name of a special grid): nothing after it is computed
+        prog.append(("trap", rng.choice(["zz"] + list(spec.layout.special_grid))))
         if rng.random() < 0.7:
             prog.append(("sub", len(prog) - 1, [0], [0]))
     return prog
